@@ -223,6 +223,29 @@ type DerivedCase struct {
 var subDerived = ev.Register("derived", func(c DerivedCase) error {
 	c.Base, c.Arg = addrgen.Raw(c.Base), addrgen.Raw(c.Arg)
 	var base sourceaddrs.Source
+	if c.Op == "afterrefused" {
+		// the first address of a package this process sees is one the parser refuses (its sub-path
+		// climbs out); what is learnt from it must not stick to the package's good addresses
+		if _, err := sourceaddrs.ParseSource(c.Base + c.Arg); err == nil {
+			ev.Label("refused-address-accepted")
+		}
+		ev.NonTrivial(c, "derived:afterrefused")
+		for _, good := range []string{c.Base, c.Base + "//modules/a"} {
+			v, err := sourceaddrs.ParseSource(good)
+			if err != nil {
+				return fmt.Errorf("ParseSource(%q) fails after the refused address %q had been seen: %v", good, c.Base+c.Arg, err)
+			}
+			if e := roundTrip(v); e != nil {
+				return fmt.Errorf("after the refused address %q: %v", c.Base+c.Arg, e)
+			}
+			if rs, ok := v.(sourceaddrs.RegistrySource); ok {
+				if e := roundTripFinal(rs.Versioned(versions.MustParseVersion("1.2.3"))); e != nil {
+					return fmt.Errorf("after the refused address %q: %v", c.Base+c.Arg, e)
+				}
+			}
+		}
+		return nil
+	}
 	if c.Op == "make" {
 		// MakeRemoteSource(type, URL, sub-path): Base is the URL text, Arg is "type|sub-path"
 		typ, sub, _ := strings.Cut(c.Arg, "|")
@@ -377,8 +400,12 @@ func TestPropParsed(t *testing.T) {
 
 func TestPropDerived(t *testing.T) {
 	ev.Check(t, subDerived, func(t *rapid.T) DerivedCase {
-		c := DerivedCase{Op: rapid.SampledFrom([]string{"resolve", "resolve", "resolvefinal", "versioned", "finaladdr", "sourceaddr", "make"}).Draw(t, "op")}
+		c := DerivedCase{Op: rapid.SampledFrom([]string{"resolve", "resolve", "resolvefinal", "versioned", "finaladdr", "sourceaddr", "make", "afterrefused"}).Draw(t, "op")}
 		switch c.Op {
+		case "afterrefused":
+			// a package name no earlier case has used
+			c.Base = rapid.SampledFrom([]string{"example.com/", "", "registry.terraform.io/"}).Draw(t, "rhost") + "ns" + rapid.StringMatching("[a-z]{10}").Draw(t, "uniq") + "/name/aws"
+			c.Arg = rapid.SampledFrom([]string{"//../x", "//a/../../x", "@1.0.0//../x", "//./x", "//a//b"}).Draw(t, "refused")
 		case "make":
 			c.Base = rapid.SampledFrom([]string{"https://example.com/repo.git", "https://example.com/pkg.tgz", "ssh://git@example.com/repo.git", "https://example.com/dl/?archive=tgz",
 				"https://example.com/a%20b/pkg.tar.gz?x=1", "https://EXAMPLE.com:443/Repo.git?ref=v1", "https://example.com/pkg.zip?archive=tgz&checksum=1", "http://example.com/repo.git", "https://example.com", "https://[2001:db8::1]:8443/x.tgz", "https://[::1]/pkg.tgz?sig=ab::cd"}).Draw(t, "url")
